@@ -195,6 +195,38 @@ where
 	}
 }
 
+/// Decodes the arcs of an object identifier.
+///
+/// `Oid::iter()` assumes that the first two arcs are encoded in a single byte, which does
+/// not hold below the `2` arc once the second arc is 48 or larger (e.g. `2.999.1` would be
+/// returned as `3.16.103.1`).
+#[cfg(feature = "x509-parser")]
+fn oid_arcs(oid: &x509_parser::der_parser::asn1_rs::Oid<'_>) -> Option<Vec<u64>> {
+	let bytes = oid.as_bytes();
+	if bytes.last()? & 0x80 != 0 {
+		return None;
+	}
+	let mut arcs = Vec::new();
+	let mut cur = 0u64;
+	for byte in bytes {
+		if cur >> 57 != 0 {
+			return None;
+		}
+		cur = (cur << 7) | u64::from(byte & 0x7f);
+		if byte & 0x80 == 0 {
+			if arcs.is_empty() {
+				let first = (cur / 40).min(2);
+				arcs.push(first);
+				arcs.push(cur - first * 40);
+			} else {
+				arcs.push(cur);
+			}
+			cur = 0;
+		}
+	}
+	Some(arcs)
+}
+
 #[cfg(feature = "x509-parser")]
 fn ip_addr_from_octets(octets: &[u8]) -> Result<IpAddr, Error> {
 	if let Ok(ipv6_octets) = <&[u8; 16]>::try_from(octets) {
@@ -222,7 +254,7 @@ impl SanType {
 				SanType::IpAddress(ip_addr_from_octets(octets)?)
 			},
 			x509_parser::extensions::GeneralName::OtherName(oid, value) => {
-				let oid = oid.iter().ok_or(Error::CouldNotParseCertificate)?;
+				let oid = oid_arcs(oid).ok_or(Error::CouldNotParseCertificate)?;
 				// We first remove the explicit tag ([0] EXPLICIT)
 				let (_, other_name) = TaggedExplicit::<asn1_rs::Any, _, 0>::from_der(value)
 					.map_err(|_| Error::CouldNotParseCertificate)?;
@@ -236,7 +268,7 @@ impl SanType {
 					),
 					_ => return Err(Error::CouldNotParseCertificate),
 				};
-				SanType::OtherName((oid.collect(), other_name_value))
+				SanType::OtherName((oid, other_name_value))
 			},
 			_ => return Err(Error::InvalidNameType),
 		})
@@ -368,11 +400,9 @@ impl DistinguishedName {
 				panic!("x509-parser distinguished name set is empty");
 			};
 
-			let attr_type_oid = attr
-				.attr_type()
-				.iter()
-				.ok_or(Error::CouldNotParseCertificate)?;
-			let dn_type = DnType::from_oid(&attr_type_oid.collect::<Vec<_>>());
+			let attr_type_oid =
+				oid_arcs(attr.attr_type()).ok_or(Error::CouldNotParseCertificate)?;
+			let dn_type = DnType::from_oid(&attr_type_oid);
 			let data = attr.attr_value().data;
 			let try_str =
 				|data| std::str::from_utf8(data).map_err(|_| Error::CouldNotParseCertificate);
